@@ -20,6 +20,27 @@ use crate::{
 
 pub struct C04;
 
+fn plain_for_live() -> impl Strategy<Value = Case> {
+    pools(5).prop_map(|pools| Case { n: 2, files: vec![], offsets: vec![], pools, steps: vec![], path: vec![], extra_pairs: vec![], via_actors: false, coarse_clock: false, live: None })
+}
+
+pub fn live_case() -> impl Strategy<Value = crate::livenet::LiveCase> {
+    use crate::livenet::{LStep, LiveCase};
+    let r = || 0u8..4;
+    let step = prop_oneof![
+        8 => (r(), any::<u16>(), any::<u16>(), 0u8..3).prop_map(|(r, a, k, c)| LStep::Write { r, a, k, c }),
+        3 => (r(), any::<u16>(), any::<u16>()).prop_map(|(r, a, k)| LStep::Delete { r, a, k }),
+        1 => r().prop_map(|r| LStep::Leave { r }),
+        1 => (r(), 0u8..16).prop_map(|(r, peers)| LStep::Join { r, peers }),
+        1 => r().prop_map(|r| LStep::Restart { r }),
+        2 => (0u8..30).prop_map(|ms| LStep::Wait { ms }),
+    ];
+    let offsets = prop_oneof![2 => vec(-290i16..=290, 4), 1 => vec(prop::sample::select(vec![-1i16, 0, 0, 0, 1]), 4)];
+    let policy = prop::option::weighted(0.5, (any::<bool>(), vec((any::<bool>(), any::<u16>(), prop_oneof![3 => Just(0u8), 1 => 1u8..3]), 0..=3)));
+    (2u8..=4, vec(prop::bool::weighted(0.3), 4), vec(prop::bool::weighted(0.15), 4), offsets, pools(5), vec(step, 1..=14), vec(any::<u8>(), 4), vec(any::<u16>(), 4), vec(policy, 4))
+        .prop_map(|(n, files, read_only, offsets, pools, steps, introducer, path, policies)| LiveCase { n, files, read_only, offsets, pools, steps, introducer, path, policies })
+}
+
 #[derive(Serialize, Deserialize, Clone, Debug)]
 pub enum Step {
     Write { r: u8, a: u16, k: u16, c: u8 },
@@ -50,6 +71,10 @@ pub struct Case {
     /// offsets, on several - carry the same timestamp (ties are then decided by the content hash)
     #[serde(default)]
     pub coarse_clock: bool,
+    /// the "live swarm" family: real nodes (endpoint, gossip, blob store, `Docs` engine behind a router) on the loopback
+    /// network, driven through the client API; everything else in the case is ignored when this is set
+    #[serde(default)]
+    pub live: Option<crate::livenet::LiveCase>,
 }
 
 impl Prop for C04 {
@@ -83,15 +108,27 @@ impl Prop for C04 {
             1 => r().prop_map(|r| Step::Restart { r }),
         ];
         let offsets = prop_oneof![2 => vec(-290i16..=290, 5), 1 => vec(prop::sample::select(vec![-1i16, 0, 0, 0, 1]), 5)];
-        (2u8..=5, vec(prop::bool::weighted(0.25), 5), offsets, pools(6), vec(step, 1..=max), vec(any::<u16>(), 5), vec((r(), r()), 0..=3), (prop::bool::weighted(0.2), prop::bool::weighted(0.4)))
+        let plain_cases = (2u8..=5, vec(prop::bool::weighted(0.25), 5), offsets, pools(6), vec(step, 1..=max), vec(any::<u16>(), 5), vec((r(), r()), 0..=3), (prop::bool::weighted(0.2), prop::bool::weighted(0.4)))
             .prop_map(|(n, files, offsets, pools, mut steps, path, extra_pairs, (via_actors, coarse_clock))| {
                 if via_actors {
                     // an actor round trip per replica per step: keep these histories shorter
                     steps.truncate(40);
                 }
-                Case { n, files, offsets, pools, steps, path, extra_pairs, via_actors, coarse_clock }
+                Case { n, files, offsets, pools, steps, path, extra_pairs, via_actors, coarse_clock, live: None }
             })
-            .boxed()
+            .boxed();
+        let plain = plain_cases;
+        // about 1.5 % of the cases are live swarms (a case takes about a second instead of a millisecond)
+        let live = (plain_for_live(), live_case()).prop_map(|(mut c, l)| {
+            c.steps.clear();
+            c.live = Some(l);
+            c
+        });
+        // DV_LIVE_ONLY=1: only the live family (debugging, focused runs)
+        if std::env::var("DV_LIVE_ONLY").is_ok() {
+            return live.boxed();
+        }
+        prop_oneof![985 => plain, 15 => live].boxed()
     }
 
     fn check(ctx: &mut Ctx, c: &Case) -> Outcome {
@@ -99,6 +136,20 @@ impl Prop for C04 {
         loop {
             attempts += 1;
             let mut o = Outcome::default();
+            if let Some(l) = &c.live {
+                o.class("live-swarm");
+                match crate::livenet::run_live(ctx, l, &mut o, "C04") {
+                    Ok(()) => {}
+                    // the harness could not get an answer from a node in time: not judged, never a violation
+                    Err(e) if e.starts_with("LIVE-TIMEOUT") => {
+                        o = Outcome::default();
+                        o.class("live-swarm");
+                        o.class("live/harness-timeout(not-judged)");
+                    }
+                    Err(e) => o.fail("C04/harness-error", e),
+                }
+                return o;
+            }
             let r = if c.via_actors { run_actors(ctx, c, &mut o) } else { run(ctx, c, &mut o) };
             verif::set_clock(None);
             match r {
